@@ -65,6 +65,7 @@ MUST_COUNT = ["aggregate_computes_checked", "twin_computes_compared", "dsum_exac
               "resets_executed"]
 MIN_NONTRIVIAL = {"quick": 8000, "thorough": 200000}
 NCASES = {"quick": (9000, 9000), "thorough": (250000, 250000)}
+NBIG = {"quick": 200, "thorough": 6000}
 
 LEVEL_TEXT = ("Seeded random exploration: every compute() of the real accumulators is compared "
               "with an independent aggregate in exact rational arithmetic (DSum exactly, "
@@ -511,6 +512,29 @@ def cases(tier, seed):
             if rng.random() < 0.3:
                 rec["dup"] = 1
             yield rec
+    # beyond the small sizes: 17..600 filled values, histories of 20..120 operations
+    for i in range(NBIG[tier]):
+        rng = gen.rng_for(seed, "C09", "big", i)
+        if i % 2 == 0:
+            er = rand_elem(rng)
+            n = rng.choice([17, 33, 64, 65, 100, 129, 257, 600, rng.randint(17, 600)])
+            if "store" in repr(er) or er[0] == "groupby":
+                n = min(n, 70)      # (their results are the values: the comparison is quadratic)
+            yield {"k": "agg", "el": er, "vals": rand_values(rng, er, n), "big": 1}
+        else:
+            er = rand_elem(rng, for_history=True)
+            nops = rng.randint(20, 120)
+            kinds = [rng.choice(["f", "f", "f", "f", "f", "c", "r"]) for _ in range(nops)]
+            kinds.append("c")
+            vals = rand_values(rng, er, kinds.count("f"), histories=True)
+            ops, vi = [], 0
+            for kd in kinds:
+                if kd == "f":
+                    ops.append(["f", vals[vi]])
+                    vi += 1
+                else:
+                    ops.append([kd])
+            yield {"k": "history", "el": er, "ops": ops, "big": 1}
     # documented reset target: start values reset to zero (finite table x seeded values)
     nz = 120 if tier == "quick" else 3000
     for i in range(nz):
